@@ -335,7 +335,9 @@ Inductive yty :=
 | YHashed (t : yty)                 (* Message / Transaction: c.Hash() first (error if the cell cannot be
                                        hashed), c.ResetCounters(), then the fields.  Only generated for
                                        positions at the start of a cell, where the rewind is the identity. *)
-| YRefRaw (t : yty).                (* c1 := c.NextRef(); decoder.Unmarshal(c1, &x): no pruned-branch shortcut *)
+| YRefRaw (t : yty)                 (* c1 := c.NextRef(); decoder.Unmarshal(c1, &x): no pruned-branch shortcut *)
+| YNoLib (t : yty).                 (* the content of a "^" / "maybe^" field: a library cell there is an error
+                                       ("library cell as a ref is not implemented"), resolver or not *)
 
 (* a reference position that checks for a pruned branch *)
 Definition sub_slice (c : xtree) (chk : bool) : option ys :=
@@ -347,18 +349,13 @@ Variable env : list yty.
    the correspondence runs, an arbitrary predicate in the theorems *)
 Variable hash_ok : xtree -> bool.
 
-Fixpoint ydec (fuel : nat) (t : yty) (s : ys) (st : ct) {struct fuel} : yres ys :=
-  let st := tickc st in
-  match fuel with
-  | O => yerr EFuel st
-  | S f =>
-    (* decode(): c.IsLibrary(): a *boc.Cell or *Any target keeps the library cell,
-       anything else needs a resolver, and none is configured *)
-    if is_lib (yk s) && negb (match t with YRawCell | YAny => true | _ => false end) then yerr ETlb st else
+(* what decode() does after the library check, on the cell it ended up with;
+   [D] = decode one level down *)
+Definition ybody (D : yty -> ys -> ct -> yres ys) (t : yty) (s : ys) (st : ct) : yres ys :=
     let bitsn (w : nat) : yres ys := doy (x, st) <- ylift (ytake_bits w s) st; yret (snd x) st in
     let into (cr : xtree * ys) (chk : bool) (t' : yty) (st : ct) : yres ys :=
       match sub_slice (fst cr) chk with
-      | Some s2 => doy (_, st) <- ydec f t' s2 st; yret (snd cr) st
+      | Some s2 => doy (_, st) <- D t' s2 st; yret (snd cr) st
       | None => yret (snd cr) st
       end in
     match t with
@@ -379,15 +376,15 @@ Fixpoint ydec (fuel : nat) (t : yty) (s : ys) (st : ct) {struct fuel} : yres ys 
           if N.eqb (N_of_bits (fst x)) val then yret (snd x) st else yerr ETlb st
     | YMaybe t' =>
         doy (x, st) <- ylift (ytake_bits 1 s) st;
-        if nth 0 (fst x) false then ydec f t' (snd x) st else yret (snd x) st
+        if nth 0 (fst x) false then D t' (snd x) st else yret (snd x) st
     | YEither l r =>
         doy (x, st) <- ylift (ytake_bits 1 s) st;
-        if nth 0 (fst x) false then ydec f r (snd x) st else ydec f l (snd x) st
+        if nth 0 (fst x) false then D r (snd x) st else D l (snd x) st
     | YEitherRef t' =>
         doy (x, st) <- ylift (ytake_bits 1 s) st;
         if nth 0 (fst x) false then
           doy (cr, st) <- ylift (ytake_ref (snd x)) st; into cr false t' st
-        else ydec f t' (snd x) st
+        else D t' (snd x) st
     | YRef t' => doy (cr, st) <- ylift (ytake_ref s) st; into cr true t' st
     | YMaybeRef t' =>
         doy (x, st) <- ylift (ytake_bits 1 s) st;
@@ -398,7 +395,7 @@ Fixpoint ydec (fuel : nat) (t : yty) (s : ys) (st : ct) {struct fuel} : yres ys 
         (fix go (fs : list yty) (s : ys) (st : ct) : yres ys :=
            match fs with
            | [] => yret s st
-           | t1 :: ft => doy (s1, st) <- ydec f t1 s st; go ft s1 st
+           | t1 :: ft => doy (s1, st) <- D t1 s st; go ft s1 st
            end) fs s st
     | YSum alts =>
         (fix go (alts : list (nat * N * yty)) : yres ys :=
@@ -407,21 +404,21 @@ Fixpoint ydec (fuel : nat) (t : yty) (s : ys) (st : ct) {struct fuel} : yres ys 
            | (len, val, t') :: rest =>
                if short len (yb s) then go rest
                else if N.eqb (N_of_bits (firstn len (yb s))) val then
-                 ydec f t' (mkys (yk s) (skipn len (yb s)) (yr s)) st
+                 D t' (mkys (yk s) (skipn len (yb s)) (yr s)) st
                else go rest
            end) alts
     | YAny => yret (mkys (yk s) [] []) st
     | YCellRef => doy (cr, st) <- ylift (ytake_ref s) st; yret (snd cr) st
     | YAddr => doy (x, st) <- ylift (addr_parse (yb s)) st; yret (mkys (yk s) (snd x) (yr s)) st
-    | YNamed i => match nth_error env i with Some t' => ydec f t' s st | None => yerr ETlb st end
+    | YNamed i => match nth_error env i with Some t' => D t' s st | None => yerr ETlb st end
     | YGrams => ylift (grams s) st
     | YSnake => doy (r, st) <- snake (cell_of s) st; yret (snd r) st
     | YBytes =>
         doy (r, st) <- snake (cell_of s) st;
         if N.eqb (fst r mod 8) 0 then yret (snd r) st else yerr ETlb st
     | YFixedText => ylift (fixed_text s) st
-    | YHashmap n vsz v => hm_decode (ydec f v) None n vsz s st
-    | YHashmapAug n vsz v e => hm_decode (ydec f v) (Some (ydec f e)) n vsz s st
+    | YHashmap n vsz v => hm_decode (D v) None n vsz s st
+    | YHashmapAug n vsz v e => hm_decode (D v) (Some (D e)) n vsz s st
     | YVmStack => vm_stack s st
     | YVmValue => vm_value s st
     | YVmTuple => vm_tuple s st
@@ -438,20 +435,44 @@ Fixpoint ydec (fuel : nat) (t : yty) (s : ys) (st : ct) {struct fuel} : yres ys 
     | YBinTree vsz v =>
         doy (leaves, st) <- bt_tree (cell_of s) st;
         let st := chg (vsz * N.of_nat (length leaves)) st in     (* make([]T, 0, len(dec)) *)
-        doy (last, st) <- bt_leaves (ydec f v) leaves s st;
+        doy (last, st) <- bt_leaves (D v) leaves s st;
         match yb s with
         | true :: b' => yret (mkys (yk s) b' (skipn 2 (yr s))) st   (* a fork: one bit and two references of c *)
         | _ => yret last st                                          (* a leaf: c itself was decoded *)
         end
     | YHashed t' =>
         let st := chg (tsz (cell_of s)) st in           (* hashing walks the whole subtree *)
-        if hash_ok (cell_of s) then ydec f t' s st else yerr ETlb st
+        if hash_ok (cell_of s) then D t' s st else yerr ETlb st
     | YRefRaw t' => doy (cr, st) <- ylift (ytake_ref s) st; into cr false t' st
-    end
+    | YNoLib t' => D t' s st
+    end.
+
+(* the library check of decode(): a *boc.Cell or *Any target keeps the library
+   cell; anything else is resolved ONCE through the configured resolver (hash of
+   the cell first), decoded in the cell the resolver returned — whatever kind
+   that is — and the library cell itself is left unread.  [resolve c = None]:
+   no resolver, or the resolver returned an error. *)
+Variable resolve : xtree -> option xtree.
+
+Fixpoint ydec (fuel : nat) (t : yty) (s : ys) (st : ct) {struct fuel} : yres ys :=
+  let st := tickc st in
+  match fuel with
+  | O => yerr EFuel st
+  | S f =>
+    if is_lib (yk s) && negb (match t with YRawCell | YAny => true | _ => false end) then
+      if (match t with YNoLib _ => true | _ => false end) then yerr ETlb st else
+      if negb (hash_ok (cell_of s)) then yerr ETlb st else
+      match resolve (cell_of s) with
+      | None => yerr ETlb st
+      | Some c' => doy (_, st) <- ybody (ydec f) t (slice_of c') st; yret s st
+      end
+    else ybody (ydec f) t s st
   end.
 
 (* tlb.Unmarshal(c, &x) *)
 Definition yunmarshal (fuel : nat) (t : yty) (c : xtree) : yres ys :=
   ydec fuel t (slice_of c) (mkct 0 0).
 End Walk.
+
+Definition no_resolver : xtree -> option xtree := fun _ => None.
 
